@@ -31,7 +31,7 @@ var ev = kit.Ev("C07")
 
 func init() {
 	ev.Rule("a history of client handshakes over (tag in {none,A,B}, server in 3 real servers on loopback TCP, command in 4) through Authenticator.ClientHandshake and client.ConnectAndAuthenticateWithConfig, " +
-		"sharing one client SessionCache, interleaved with server restarts (sessions forgotten), broken next resumption (close / garbage / DENIED reply), client-side expiry (hook), invalidation and sweeps; " +
+		"sharing one client SessionCache (and, in half the histories, one SecurityConfig object whose tag and command are set before each use), interleaved with server restarts (sessions forgotten), broken next resumption (close / garbage / DENIED reply), client-side expiry (hook), invalidation and sweeps; " +
 		"servers advertise generated ValidCommands subsets; oracle: reference map route[(tag, address, command)] -> session built from the post-auth ads; the first message of every connection is read off the wire: " +
 		"a resumption request may only name the session the map holds for exactly this triple and only while the client-side entry is live; after a failed resumption the session and every command route to it are gone " +
 		"and the next handshake is a full one; non-trivial = >=2 tags or >=2 servers and a handshake that follows a cached session for a different triple; distinct by history")
@@ -214,6 +214,9 @@ type Op struct {
 
 type Case struct {
 	Ops []Op `json:"ops"`
+	// Shared: the application keeps ONE SecurityConfig object for all its handshakes and only sets the tag and
+	// the command before each use (no PeerName: the connection's peer address identifies the server).
+	Shared bool `json:"shared,omitempty"`
 }
 
 type routeKey struct {
@@ -285,6 +288,8 @@ func runCase(c Case) (string, stats) {
 		}
 	}
 	var prevFullKey *routeKey
+	sharedCfg := kit.BaseConfig(security.SecurityRequired, security.SecurityOptional, security.AuthClaimToBe)
+	sharedCfg.SessionCache = cache
 	for oi, op := range c.Ops {
 		s := servers[op.Srv%len(servers)]
 		fail := func(f string, a ...any) (string, stats) {
@@ -371,6 +376,9 @@ func runCase(c Case) (string, stats) {
 			mustResume := prevFullKey != nil && *prevFullKey == key && tag == ""
 			prevFullKey = nil
 			cfg := kit.BaseConfig(security.SecurityRequired, security.SecurityOptional, security.AuthClaimToBe)
+			if c.Shared {
+				cfg = sharedCfg
+			}
 			cfg.SessionCache, cfg.SecurityTag, cfg.Command = cache, tag, cmd
 			for k, sid := range md.route {
 				if md.clientLive[sid] && k != key && (k.tag != key.tag || k.addr != key.addr) {
@@ -502,6 +510,7 @@ func orStr(a, b string) string {
 
 func genCase(t *rapid.T) Case {
 	var c Case
+	c.Shared = rapid.Bool().Draw(t, "shared")
 	n := rapid.IntRange(3, 12).Draw(t, "nops")
 	for i := 0; i < n; i++ {
 		k := rapid.SampledFrom([]string{"handshake", "handshake", "handshake", "handshake", "handshake", "policy", "restart", "break", "expire", "invalidate", "sweep", "mint"}).Draw(t, "op")
@@ -639,6 +648,9 @@ func TestC07Directed(t *testing.T) {
 				cases = append(cases, Case{Ops: []Op{{K: "mint", Tag: tg, Srv: 0, Cmd: 0, API: api}, hs(other, 0, 0, api), hs(other, 1, 0, api), hs(other, 0, 1, api), hs(tg, 0, 0, api)}})
 			}
 		}
+	}
+	for _, c := range append([]Case(nil), cases...) { // the same scenarios with one configuration object reused throughout
+		cases = append(cases, Case{Ops: c.Ops, Shared: true})
 	}
 	bad := 0
 	for i, c := range cases {
